@@ -60,11 +60,14 @@ class Sym(V):
 
 
 class SymStr(V):
-    __slots__ = ('prov', 'nonempty')
+    """symbolic string; ``ops`` records the str.replace steps applied to an opaque base (in order)"""
+    __slots__ = ('prov', 'nonempty', 'ops', 'base')
 
-    def __init__(self, prov, nonempty=None):
+    def __init__(self, prov, nonempty=None, ops=(), base=None):
         self.prov = prov
         self.nonempty = nonempty
+        self.ops = tuple(ops)
+        self.base = base if base is not None else prov
 
     def __repr__(self):
         return 'SymStr(%s)' % self.prov
@@ -794,6 +797,8 @@ class Interp:
             hi = self.eval(n.slice.upper, fr) if n.slice.upper is not None else NONE
             if isinstance(obj, (ListV, TupleV)) and isinstance(lo, Const) and isinstance(hi, Const) and n.slice.step is None:
                 return type(obj)(obj.items[lo.v:hi.v])
+            if isinstance(obj, (SymStr,)) or (isinstance(obj, Sym) and obj.typ == 'str'):
+                return SymStr('%s[%s:%s]' % (_prov(obj), _prov(lo), _prov(hi)))
             return Sym('%s[%s:%s]' % (_prov(obj), _prov(lo), _prov(hi)))
         idx = self.eval(n.slice, fr)
         if isinstance(obj, (ListV, TupleV)) and isinstance(idx, Const) and isinstance(idx.v, int):
@@ -907,8 +912,15 @@ class Interp:
             return ListV([Sym('%s[%s]' % (obj.prov, _prov(k))) for k in obj.elems])
         if name in ('items',) and isinstance(obj, (TupleV, ListV)):
             return obj      # kwargs given as list of pairs / dict model
-        if name in ('splitlines', 'split', 'count', 'find', 'replace', 'startswith', 'endswith', 'lower', 'upper', 'strip', 'rstrip'):
-            return Sym('%s.%s(...)' % (_prov(obj), name))
+        if name == 'replace' and isinstance(obj, (Sym, SymStr)) and len(args) >= 2:
+            step = (args[0].v if isinstance(args[0], Const) else _prov(args[0]),
+                    args[1].v if isinstance(args[1], Const) else _prov(args[1]),
+                    (args[2].v if isinstance(args[2], Const) else _prov(args[2])) if len(args) > 2 else None)
+            ops = (obj.ops if isinstance(obj, SymStr) else ()) + (step,)
+            base = obj.base if isinstance(obj, SymStr) else obj.prov
+            return SymStr('%s.replace(%s)' % (_prov(obj), ','.join(_prov(a) for a in args)), ops=ops, base=base)
+        if name in ('splitlines', 'split', 'count', 'find', 'replace', 'startswith', 'endswith', 'lower', 'upper', 'strip', 'rstrip', 'index'):
+            return Sym('%s.%s(%s)' % (_prov(obj), name, ','.join(_prov(a) for a in args)))
         if name == 'get':
             return Sym('%s.get(%s)' % (_prov(obj), ','.join(_prov(a) for a in args)))
         raise Undecided('method %s of %r (line %s)' % (name, obj, getattr(node, 'lineno', '?')))
@@ -1201,7 +1213,7 @@ class Interp:
 
 
 _METHODS = {'append', 'extend', 'format', 'join', 'keys', 'items', 'values', 'pop', 'splitlines', 'split',
-            'count', 'find', 'replace', 'get', 'startswith', 'endswith', 'lower', 'upper', 'strip', 'rstrip'}
+            'count', 'find', 'replace', 'get', 'startswith', 'endswith', 'lower', 'upper', 'strip', 'rstrip', 'index'}
 
 
 def _is_generator(fn_node):
